@@ -355,6 +355,39 @@ def tensorSimilarityBy [Inhabited ν] (rel : α → α → Bool) (l r : TView ν
     if leftShape ≠ rightAccess.shape then false
     else (leftAccess.iter.zip rightAccess.iter).all fun p => rel p.1 p.2
 
+/-! ### histories of in-place transformations -/
+
+/-- one in-place transformation of a `Tensor<T, D>` (all of them keep `D`) -/
+inductive InPlace (ν α : Type) where
+  | reorder (dimensions : List ν)      -- `reorder_mut`
+  | transpose (dimensions : List ν)    -- `transpose_mut`
+  | reshape (shape : Shape ν)          -- `reshape_mut`
+  | rename (dimensions : List ν)       -- `rename`
+  | map (f : α → α)                    -- `map_mut`
+  | mapi (f : List Nat → α → α)        -- `map_mut_with_index`
+
+/-- the number of dimensions the argument arrays of a step have (they are `[_; D]` in the code) -/
+def InPlace.arity : InPlace ν α → Option Nat
+  | .reorder d | .transpose d | .rename d => some d.length
+  | .reshape s => some s.length
+  | .map _ | .mapi _ => none
+
+def Tensor.applyInPlace [Inhabited ν] (t : Tensor ν α) : InPlace ν α → Outcome (Tensor ν α)
+  | .reorder d => t.reorderMut d
+  | .transpose d => t.transposeMut d
+  | .reshape s => t.reshapeMut s
+  | .rename d => t.rename d
+  | .map f => .ok (t.mapMut f)
+  | .mapi f => .ok (t.mapMutWithIndex f)
+
+/-- a history of in-place transformations; a panic ends it -/
+def Tensor.applyAll [Inhabited ν] (t : Tensor ν α) : List (InPlace ν α) → Outcome (Tensor ν α)
+  | [] => .ok t
+  | step :: rest =>
+    match t.applyInPlace step with
+    | .ok t' => t'.applyAll rest
+    | .panic k => .panic k
+
 /-! ### further constructors and shape look-ups (driven by C01) -/
 
 /-- `Tensor::from_fn`: `ShapeIterator::from(shape)`, `producer(index)` pushed for every index
